@@ -240,7 +240,7 @@ class RandomGen:
                 if not m.exps:
                     return None
                 e = rng.choice(sorted(m.exps))
-                return ('rmexp', e)
+                return ('rmexpx' if rng.random() < 0.12 else 'rmexp', e)
             if kind == 'rmobj':
                 c = [o for o in m.objs if o not in nest_targets()]
                 if not pf['allow_cut']:
@@ -304,7 +304,7 @@ class RandomGen:
             raise ValueError(kind)
 
         def after(op):
-            if op[0] == 'rmexp':
+            if op[0] in ('rmexp', 'rmexpx'):
                 k = exp_slot.pop(op[1], None)
                 if k:
                     if k[0] == 'site':
@@ -339,7 +339,7 @@ class RandomGen:
             if m.tracers:
                 c.append(('rmtr', m.tracers[-1][0]))
             for e in m.exps:
-                c.append(('rmexp', e))
+                c.append(('rmexpx' if rng.random() < 0.08 else 'rmexp', e))
             nt = nest_targets()
             for o in m.objs:
                 if o in nt:
